@@ -694,7 +694,9 @@ Definition rows_of (o : obj) : list vec :=
 Definition operand_of_vec (v : vec) : operand := match v with VF c => PV c | VB b => PL b end.
 
 (* SparseVector / SparseLogicalVector binary dispatch (self is a vector) *)
-Definition vector_bin (lg : bool) (o : bop) (self : vec) (p : operand) : res obj :=
+Definition vector_bin (lg : bool) (o : bop) (self0 : vec) (p : operand) : res obj :=
+  (* SparseLogicalVector.__sub__: SparseVector.from_dict({i: 1. ...}) - other, dispatched as a float vector *)
+  let self := match self0, o with VB b, BA Sub => VF (cells_of_bits b) | _, _ => self0 end in
   match p with
   | PA r => do l <- mapM (fun row => vec_bin lg o self (PV row)) r; obj_of_rows l
   | PB r => do l <- mapM (fun row => vec_bin lg o self (PL row)) r; obj_of_rows l
@@ -857,7 +859,8 @@ Definition res_all {A} (l : list (res A)) : res (list A) := mapM (fun x => x) l.
 Definition qmax_list (l : list Q) : Q := match l with x :: t => qmaxl x t | [] => 0 end.
 Definition qmin_list (l : list Q) : Q := match l with x :: t => qminl x t | [] => 0 end.
 
-Definition red_arrF (r : red) (rows : list cells) (axis : option nat) (keep : bool) : outcome :=
+(* lg: before the repair, max/min with axis=None, keepdims=True stored {0: arr} without the zero test *)
+Definition red_arrF (lg : bool) (r : red) (rows : list cells) (axis : option nat) (keep : bool) : outcome :=
   let nrows := length rows in
   let cols := columns None rows in
   let lg1 (x : bool) := if keep then RNew (OB [[x]]) else RBool x in
@@ -880,13 +883,13 @@ Definition red_arrF (r : red) (rows : list cells) (axis : option nat) (keep : bo
                 | Err e => RErr e
                 | Ok [] => RErr EValue
                 | Ok l => let x := qmax_list l in
-                          if keep then RNew (OA [[Some x]] false) else RScal x    (* {0: arr}: no zero test *)
+                          if keep then RNew (OA [[if lg then Some x else nz x]] false) else RScal x
                 end
       | RMin => match res_all (map sv_min rows) with
                 | Err e => RErr e
                 | Ok [] => RErr EValue
                 | Ok l => let x := qmin_list l in
-                          if keep then RNew (OA [[Some x]] false) else RScal x
+                          if keep then RNew (OA [[if lg then Some x else nz x]] false) else RScal x
                 end
       end
   | Some O =>
@@ -957,7 +960,10 @@ Definition arrF_get (rows : list cells) (ax : aindex) : aget :=
   | XRow m =>
       if is_open m then GSelf
       else if is_int m then (if Nat.ltb (int_of m) nrows then GRow (int_of m) else GErr EIndex)
-      else match nth_rows rows (row_sel nrows m) with Ok _ => GRows (row_sel nrows m) | Err e => GErr e end
+      else let sel := match m with
+                      | ISlice a b c => slice_range a (Nat.min b nrows) c        (* rows[slice]: list slicing clips *)
+                      | _ => row_sel nrows m end in
+           match nth_rows rows sel with Ok _ => GRows sel | Err e => GErr e end
   | XPair m n =>
       if is_slice m then
         if is_open m && is_open n then GSelf
@@ -1025,13 +1031,14 @@ Definition reduce_obj (p : operand) : operand :=
 (* direct dictionary writes of a[[m...], [n...]] = value: no read_only test *)
 Definition dset (c : cells) (j : nat) (q : Q) : cells * option err := keep_on_err c (set1 c j q).
 
-Definition arrF_set (rows : list cells) (ro : bool) (ax : aindex) (p : operand) : list cells * option err :=
+(* lg: before the repair, row[:] = <2-d value> cleared the row and then raised IndexError *)
+Definition arrF_set (lg : bool) (rows : list cells) (ro : bool) (ax : aindex) (p : operand) : list cells * option err :=
   let nrows := length rows in
   let vs := vsize rows in
   let nope : list cells * option err := (rows, Some EOther) in
   let rowset (n : index) (c : cells) (v : operand) : cells * option err :=     (* row[n] = v through SparseVector.__setitem__ *)
     if ro then (c, Some EValue)
-    else if is_open n && vd2 v then (empty_cells (length c), Some EIndex)      (* dct.clear() precedes the IndexError *)
+    else if is_open n && vd2 v then ((if lg then empty_cells (length c) else c), Some EIndex)
     else keep_on_err c (vecF_set c n v) in
   let bcast (sel : list nat) (n : index) : list cells * option err :=
     match p with
@@ -1228,21 +1235,19 @@ Definition step_res (lg : bool) (s : store) (o : op) : res (store * outcome) :=
       let vd2 := vd2 p in
       match x with
       | OV c ro => if ro then Err EValue
-                   else if alias_of a i then
+                   else if alias_of a i && (is_open ix || negb (len1 c)) then
                      (if is_open ix then Ok (s, RUnit)                            (* `if value is self: return` *)
-                      else if is_int ix then (if len1 c then (do c' <- vecF_set c ix p; Ok (set_obj s i (OV c' ro), RUnit))
-                                              else Err EIndex)
+                      else if is_int ix then Err EIndex
                       else do c' <- set_zip_lazy c (index_list (length c) ix) 0; Ok (set_obj s i (OV c' ro), RUnit))
-                   else if is_open ix && vd2                                      (* dct.clear() precedes the IndexError *)
-                   then Ok (set_obj s i (OV (empty_cells (length c)) ro), RErr EIndex)
+                   else if is_open ix && vd2                (* before the repair dct.clear() preceded the IndexError *)
+                   then (if lg then Ok (set_obj s i (OV (empty_cells (length c)) ro), RErr EIndex) else Err EIndex)
                    else do c' <- vecF_set c ix p; Ok (set_obj s i (OV c' ro), RUnit)
-      | OL b => if alias_of a i then
+      | OL b => if alias_of a i && (is_open ix || negb (len1 b)) then
                   (if is_open ix then Ok (s, RUnit)
-                   else if is_int ix then (if len1 b then (do b' <- vecB_set b ix p; Ok (set_obj s i (OL b'), RUnit))
-                                           else Err EIndex)
+                   else if is_int ix then Err EIndex
                    else do b' <- setb_zip_lazy b (index_list (length b) ix) 0; Ok (set_obj s i (OL b'), RUnit))
                 else if is_open ix && vd2
-                then Ok (set_obj s i (OL (falses (length b))), RErr EIndex)
+                then (if lg then Ok (set_obj s i (OL (falses (length b))), RErr EIndex) else Err EIndex)
                 else do b' <- vecB_set b ix p; Ok (set_obj s i (OL b'), RUnit)
       | _ => unsupported
       end
@@ -1251,7 +1256,7 @@ Definition step_res (lg : bool) (s : store) (o : op) : res (store * outcome) :=
       let out := match x with
                  | OV c _ => match axis with None | Some O => red_vecF r c keep | _ => RErr EValue end
                  | OL b => match axis with None | Some O => red_vecB r b keep | _ => RErr EValue end
-                 | OA rows _ => red_arrF r rows axis keep
+                 | OA rows _ => red_arrF lg r rows axis keep
                  | OB rows => red_arrB r rows axis keep
                  end in
       match out with
@@ -1274,11 +1279,11 @@ Definition xstep_res (lg : bool) (s : store) (o : xop) : res (store * outcome) :
   | XAGet i ax =>
       do x <- getobj s i;
       match x with
-      | OA rows _ =>
+      | OA rows ro =>
           match arrF_get rows ax with
           | GSelf => Ok (s, RSelf)
-          | GRow k => Ok (s, RNew (OV (nth k rows []) false))          (* the row object itself: reported, not stored *)
-          | GRows sel => do l <- nth_rows rows sel; Ok (s, RNew (OA l false))
+          | GRow k => Ok (s, RNew (OV (nth k rows []) ro))             (* the row object itself: reported, not stored *)
+          | GRows sel => do l <- nth_rows rows sel; Ok (s, RNew (OA l (ro && negb (len0 l))))
           | GScalF q => Ok (s, RScal q)
           | GDenseF l => Ok (s, RDense l)
           | GDense2F m => Ok (s, RDense2 m)
@@ -1289,7 +1294,7 @@ Definition xstep_res (lg : bool) (s : store) (o : xop) : res (store * outcome) :
   | XASet i ax a =>
       do x <- getobj s i; do p <- resolve s a;
       match x with
-      | OA rows ro => let (rows', e) := arrF_set rows ro ax (reduce_obj p) in
+      | OA rows ro => let (rows', e) := arrF_set lg rows ro ax (reduce_obj p) in
                       Ok (set_obj s i (OA rows' ro), match e with None => RUnit | Some e => RErr e end)
       | _ => unsupported
       end
